@@ -146,28 +146,39 @@ fn parse_scheme(s: &str) -> Option<Node> {
 
 // ------------------------------------------------------------------ jagged-hierarchy oracle
 
-struct Jag<'a> {
+/// Search state of the jagged-hierarchy oracle. Parts are dense indices; only their
+/// bounding intervals per axis are needed (computed once, O(n·D)).
+struct Jag {
     dim: usize,
-    coords: &'a [i64],
+    lo: Vec<i64>,
+    hi: Vec<i64>,
     steps: u64,
     budget: u64,
     ambiguous: bool,
 }
 
-#[derive(Clone)]
-struct Part {
-    points: Vec<usize>,
-}
-
-impl<'a> Jag<'a> {
-    fn c(&self, p: usize, axis: usize) -> i64 {
-        self.coords[p * self.dim + axis]
+impl Jag {
+    /// `ids[p] < parts` for every point. Returns the oracle state and the list of used parts.
+    fn new(dim: usize, coords: &[i64], ids: &[usize], parts: usize, budget: u64) -> (Jag, Vec<usize>) {
+        let mut lo = vec![i64::MAX; parts * dim];
+        let mut hi = vec![i64::MIN; parts * dim];
+        let mut used = vec![false; parts];
+        for (p, &i) in ids.iter().enumerate() {
+            used[i] = true;
+            for a in 0..dim {
+                let c = coords[p * dim + a];
+                lo[i * dim + a] = lo[i * dim + a].min(c);
+                hi[i * dim + a] = hi[i * dim + a].max(c);
+            }
+        }
+        let list: Vec<usize> = (0..parts).filter(|&k| used[k]).collect();
+        (Jag { dim, lo, hi, steps: 0, budget, ambiguous: false }, list)
     }
 
     /// Is there an assignment of the parts to the leaves below `node` that makes the
     /// parts a jagged hierarchy (slabs ordered along `axis`, then the next axis, …)?
     /// `None` = step budget exhausted.
-    fn check(&mut self, node: &Node, axis: usize, parts: &[Part]) -> Option<bool> {
+    fn check(&mut self, node: &Node, axis: usize, parts: &[usize]) -> Option<bool> {
         self.steps += 1;
         if self.steps > self.budget {
             return None;
@@ -185,15 +196,8 @@ impl<'a> Jag<'a> {
             return Some(false);
         }
         // order the parts along the axis
-        let mut iv: Vec<(i64, i64, usize)> = parts
-            .iter()
-            .enumerate()
-            .map(|(k, p)| {
-                let lo = p.points.iter().map(|&q| self.c(q, axis)).min().unwrap();
-                let hi = p.points.iter().map(|&q| self.c(q, axis)).max().unwrap();
-                (lo, hi, k)
-            })
-            .collect();
+        let mut iv: Vec<(i64, i64, usize)> =
+            parts.iter().map(|&k| (self.lo[k * self.dim + axis], self.hi[k * self.dim + axis], k)).collect();
         iv.sort();
         for w in iv.windows(2) {
             if w[0].0 == w[0].1 && w[1].0 == w[1].1 && w[0].0 == w[1].0 {
@@ -201,7 +205,7 @@ impl<'a> Jag<'a> {
                 self.ambiguous = true;
             }
         }
-        let sorted: Vec<Part> = iv.iter().map(|x| parts[x.2].clone()).collect();
+        let sorted: Vec<usize> = iv.iter().map(|x| x.2).collect();
         let np = sorted.len();
         // admissible cuts
         let mut prefmax = vec![i64::MIN; np + 1];
@@ -225,7 +229,7 @@ impl<'a> Jag<'a> {
         &mut self,
         children: &[Node],
         next_axis: usize,
-        sorted: &[Part],
+        sorted: &[usize],
         cut_ok: &[bool],
         j: usize,
         k: usize,
@@ -258,26 +262,186 @@ impl<'a> Jag<'a> {
 
 // ------------------------------------------------------------------ op runners
 
-fn run_mj_impl<const D: usize>(
+/// The property oracle on one implementation output (independent of any model):
+/// ids below `parts`, the parts are a jagged hierarchy for the real scheme, balance bound.
+/// O(n·D + search over the parts).
+#[allow(clippy::too_many_arguments)]
+fn oracle_mj(
+    ctx: &mut Ctx,
+    dim: usize,
+    coords: &[i64],
+    ws: &[u64],
+    ids: &[usize],
+    parts: usize,
+    maxiter: usize,
+    in_quant: bool,
+    verdicts: &mut Vec<(&'static str, String)>,
+) {
+    let n = ws.len();
+    let positive = ws.iter().all(|&w| w > 0);
+    // ---- oracle 1: ids
+    if ids.iter().any(|&i| i == usize::MAX) {
+        verdicts.push(("mj-unwritten", "an element kept its initial id".into()));
+        return;
+    } else if let Some(&bad) = ids.iter().find(|&&i| i >= parts) {
+        verdicts.push(("mj-id-out-of-range", format!("id {} with part_count {}", bad, parts)));
+        return;
+    }
+    // ---- oracle 2: jagged hierarchy, guided by the real scheme
+    let scheme_txt = catch(|| coupe::verif::multi_jagged::partition_scheme(parts, maxiter));
+    if let Caught::Ok(txt) = scheme_txt {
+        if let Some(root) = parse_scheme(&txt) {
+            let (mut j, used) = Jag::new(dim, coords, ids, parts, 3_000_000);
+            match j.check(&root, 0, &used) {
+                Some(true) => ctx.count("mj_jagged_confirmed"),
+                Some(false) if j.ambiguous => ctx.count("mj_jagged_inconclusive_ties"),
+                Some(false) => verdicts.push((
+                    "mj-not-jagged",
+                    format!("no assignment of the {} parts to the scheme's leaves is a jagged hierarchy", used.len()),
+                )),
+                None => ctx.count("mj_jagged_inconclusive_budget"),
+            }
+        } else {
+            verdicts.push(("scheme-unparsable", txt.chars().take(200).collect()));
+        }
+    }
+    // ---- oracle 3: balance (positive weights)
+    if positive && n >= 1 && parts >= 1 {
+        let total: i128 = ws.iter().map(|&w| w as i128).sum();
+        let wmax: i128 = *ws.iter().max().unwrap() as i128;
+        let mut loads = vec![0i128; parts];
+        for (p, &i) in ids.iter().enumerate() {
+            loads[i] += ws[p] as i128;
+        }
+        let bound = parts as i128 * (maxiter as i128 + 1) * wmax;
+        let mut worst = 0i128;
+        for (k, &l) in loads.iter().enumerate() {
+            let dev = (parts as i128 * l - total).abs();
+            worst = worst.max(dev);
+            if dev >= bound {
+                verdicts.push((
+                    "mj-imbalance",
+                    format!(
+                        "part {} load {}: |{}*{} - {}| = {} >= {}*({}+1)*{}",
+                        k, l, parts, l, total, dev, parts, maxiter, wmax
+                    ),
+                ));
+                break;
+            }
+        }
+        if in_quant {
+            // how much of the bound is used (in units of parts*wmax), for the evidence
+            let used = worst / (parts as i128 * wmax);
+            ctx.count(&format!("mj_balance_dev_units_{}", used.min(9)));
+        }
+        ctx.count("mj_balance_checked");
+    }
+}
+
+/// History independence: the same algorithm value used on another input first, and an id
+/// buffer left over from a call with more parts, must give the same partition as a fresh run.
+fn reuse_run<const D: usize>(
     threads: usize,
     parts: usize,
     maxiter: usize,
-    ws: &[u64],
-    coords: &[i64],
+    weights: &[f64],
+    points: &[coupe::PointND<D>],
 ) -> Caught<Vec<usize>> {
-    let n = ws.len();
-    let points: Vec<coupe::PointND<D>> =
-        (0..n).map(|p| coupe::PointND::<D>::from_fn(|i, _| coords[p * D + i] as f64)).collect();
-    let weights: Vec<f64> = ws.iter().map(|&w| w as f64).collect();
+    let n = weights.len();
+    catch(|| {
+        with_pool(threads, || {
+            let mut alg = coupe::MultiJagged { part_count: parts, max_iter: maxiter };
+            // another input first: the first half of the points
+            let h = n / 2;
+            let mut tmp = vec![0usize; h];
+            alg.partition(&mut tmp, (&points[..h], &weights[..h])).unwrap();
+            // a buffer left over from a call with more parts
+            let mut ids = vec![usize::MAX; n];
+            coupe::MultiJagged { part_count: 2 * parts + 1, max_iter: maxiter }
+                .partition(&mut ids, (points, weights))
+                .unwrap();
+            alg.partition(&mut ids, (points, weights)).unwrap();
+            ids
+        })
+    })
+}
+
+fn points_of<const D: usize>(coords: &[f64]) -> Vec<coupe::PointND<D>> {
+    (0..coords.len() / D).map(|p| coupe::PointND::<D>::from_fn(|i, _| coords[p * D + i])).collect()
+}
+
+fn run_fresh<const D: usize>(
+    threads: usize,
+    parts: usize,
+    maxiter: usize,
+    weights: &[f64],
+    points: &[coupe::PointND<D>],
+) -> Caught<Vec<usize>> {
+    let n = weights.len();
     catch(|| {
         with_pool(threads, || {
             let mut ids = vec![usize::MAX; n];
             coupe::MultiJagged { part_count: parts, max_iter: maxiter }
-                .partition(&mut ids, (&points[..], &weights[..]))
+                .partition(&mut ids, (points, weights))
                 .unwrap();
             ids
         })
     })
+}
+
+/// fresh run and, when `reuse`, the history-dependence probe (tie-invariant comparison)
+#[allow(clippy::too_many_arguments)]
+fn run_both<const D: usize>(
+    ctx: &mut Ctx,
+    threads: usize,
+    parts: usize,
+    maxiter: usize,
+    ws: &[u64],
+    fcoords: &[f64],
+    reuse: bool,
+    distinct: bool,
+    uniform: bool,
+    verdicts: &mut Vec<(&'static str, String)>,
+) -> Caught<Vec<usize>> {
+    let points = points_of::<D>(fcoords);
+    let weights: Vec<f64> = ws.iter().map(|&w| w as f64).collect();
+    let res = run_fresh::<D>(threads, parts, maxiter, &weights, &points);
+    if reuse && parts >= 1 {
+        if let Caught::Ok(ids) = &res {
+            ctx.count("reuse");
+            match reuse_run::<D>(threads, parts, maxiter, &weights, &points) {
+                Caught::Ok(ids2) => {
+                    let same = if distinct {
+                        canon(ids) == canon(&ids2)
+                    } else if uniform {
+                        sorted_loads(ids, ws, parts) == sorted_loads(&ids2, ws, parts)
+                    } else {
+                        true
+                    };
+                    if !same {
+                        verdicts.push((
+                            "mj-history-dependent",
+                            "a reused algorithm value / id buffer gives another partition than a fresh run".into(),
+                        ));
+                    }
+                }
+                Caught::Panic(m) => verdicts.push(("panic", format!("reuse run: {} [{}]", m, panic_sig(&m)))),
+                Caught::Hang => verdicts.push(("hang", "reuse run".into())),
+            }
+        }
+    }
+    res
+}
+
+fn sorted_loads(ids: &[usize], ws: &[u64], parts: usize) -> Vec<u64> {
+    let mut loads = vec![0u64; parts.min(1 << 24)];
+    for (p, &i) in ids.iter().enumerate() {
+        if i < loads.len() {
+            loads[i] += ws[p];
+        }
+    }
+    loads.sort_unstable();
+    loads
 }
 
 fn op_mj(ctx: &mut Ctx, op: &str, it: &mut std::str::SplitWhitespace) -> Option<()> {
@@ -316,91 +480,54 @@ fn op_mj(ctx: &mut Ctx, op: &str, it: &mut std::str::SplitWhitespace) -> Option<
         17..=80 => "mj_n_17-80",
         _ => "mj_n_81-400",
     });
+    let fcoords: Vec<f64> = coords.iter().map(|&c| c as f64).collect();
+    // history-independence probe on a third of the cases (decided by the op line)
+    let reuse = threads == 4;
+    finish_mj(ctx, op, dim, threads, parts, maxiter, &ws, &coords, &fcoords, reuse, distinct, uniform, in_quant, false);
+    Some(())
+}
+
+/// Runs the implementation, the oracle and records the canonical output (shared by `mj` and
+/// `mjl`; `hashed`: print a hash of the canonical ids instead of the ids).
+#[allow(clippy::too_many_arguments)]
+fn finish_mj(
+    ctx: &mut Ctx,
+    op: &str,
+    dim: usize,
+    threads: usize,
+    parts: usize,
+    maxiter: usize,
+    ws: &[u64],
+    coords: &[i64],
+    fcoords: &[f64],
+    reuse: bool,
+    distinct: bool,
+    uniform: bool,
+    in_quant: bool,
+    hashed: bool,
+) {
+    let n = ws.len();
+    let mut verdicts: Vec<(&'static str, String)> = vec![];
     let res = if dim == 2 {
-        run_mj_impl::<2>(threads, parts, maxiter, &ws, &coords)
+        run_both::<2>(ctx, threads, parts, maxiter, ws, fcoords, reuse, distinct, uniform, &mut verdicts)
     } else {
-        run_mj_impl::<3>(threads, parts, maxiter, &ws, &coords)
+        run_both::<3>(ctx, threads, parts, maxiter, ws, fcoords, reuse, distinct, uniform, &mut verdicts)
     };
     let nontrivial = in_quant && n >= 2 && parts >= 2;
-    let mut verdicts: Vec<(&str, String)> = vec![];
     let out = match res {
         Caught::Ok(ids) => {
-            // ---- oracle 1: ids
-            let mut ids_ok = true;
-            if ids.iter().any(|&i| i == usize::MAX) {
-                verdicts.push(("mj-unwritten", "an element kept its initial id".into()));
-                ids_ok = false;
-            } else if let Some(&bad) = ids.iter().find(|&&i| i >= parts) {
-                verdicts.push(("mj-id-out-of-range", format!("id {} with part_count {}", bad, parts)));
-                ids_ok = false;
-            }
-            if ids_ok {
-                // ---- oracle 2: jagged hierarchy, guided by the real scheme
-                let scheme_txt = catch(|| coupe::verif::multi_jagged::partition_scheme(parts, maxiter));
-                if let Caught::Ok(txt) = scheme_txt {
-                    if let Some(root) = parse_scheme(&txt) {
-                        let mut groups: std::collections::BTreeMap<usize, Vec<usize>> = Default::default();
-                        for (p, &i) in ids.iter().enumerate() {
-                            groups.entry(i).or_default().push(p);
-                        }
-                        let partsv: Vec<Part> = groups.into_values().map(|points| Part { points }).collect();
-                        let mut j = Jag { dim, coords: &coords, steps: 0, budget: 3_000_000, ambiguous: false };
-                        match j.check(&root, 0, &partsv) {
-                            Some(true) => ctx.count("mj_jagged_confirmed"),
-                            Some(false) if j.ambiguous => ctx.count("mj_jagged_inconclusive_ties"),
-                            Some(false) => verdicts.push((
-                                "mj-not-jagged",
-                                format!("no assignment of the {} parts to the scheme's leaves is a jagged hierarchy", partsv.len()),
-                            )),
-                            None => ctx.count("mj_jagged_inconclusive_budget"),
-                        }
-                    } else {
-                        verdicts.push(("scheme-unparsable", txt.chars().take(200).collect()));
-                    }
-                }
-                // ---- oracle 3: balance (positive weights)
-                if positive && n >= 1 && parts >= 1 {
-                    let total: i128 = ws.iter().map(|&w| w as i128).sum();
-                    let wmax: i128 = *ws.iter().max().unwrap() as i128;
-                    let mut loads = vec![0i128; parts];
-                    for (p, &i) in ids.iter().enumerate() {
-                        loads[i] += ws[p] as i128;
-                    }
-                    let bound = parts as i128 * (maxiter as i128 + 1) * wmax;
-                    let mut worst = 0i128;
-                    for (k, &l) in loads.iter().enumerate() {
-                        let dev = (parts as i128 * l - total).abs();
-                        worst = worst.max(dev);
-                        if dev >= bound {
-                            verdicts.push((
-                                "mj-imbalance",
-                                format!(
-                                    "part {} load {}: |{}*{} - {}| = {} >= {}*({}+1)*{}",
-                                    k, l, parts, l, total, dev, parts, maxiter, wmax
-                                ),
-                            ));
-                            break;
-                        }
-                    }
-                    if in_quant {
-                        // how much of the bound is used (in units of parts*wmax), for the evidence
-                        let used = worst / (parts as i128 * wmax);
-                        ctx.count(&format!("mj_balance_dev_units_{}", used.min(9)));
-                    }
-                    ctx.count("mj_balance_checked");
-                }
-            }
+            oracle_mj(ctx, dim, coords, ws, &ids, parts, maxiter, in_quant, &mut verdicts);
             if distinct {
-                tagged("ok ids", &canon(&ids))
-            } else if uniform {
-                let mut loads = vec![0u64; parts.min(1 << 24)];
-                for (p, &i) in ids.iter().enumerate() {
-                    if i < loads.len() {
-                        loads[i] += ws[p];
-                    }
+                if hashed {
+                    let h = canon(&ids)
+                        .iter()
+                        .fold(0u128, |h, &i| (h * 1_000_003 + i as u128 + 1) % ((1u128 << 61) - 1));
+                    format!("ok idsh {} {}", n, h)
+                } else {
+                    tagged("ok ids", &canon(&ids))
                 }
-                loads.sort_unstable();
-                tagged("ok loads", &loads)
+            } else if uniform {
+                tagged("ok loads", &sorted_loads(&ids, ws, parts))
             } else {
                 "ok ties".to_string()
             }
@@ -422,6 +549,158 @@ fn op_mj(ctx: &mut Ctx, op: &str, it: &mut std::str::SplitWhitespace) -> Option<
     for (sig, what) in verdicts {
         ctx.fail(idx, sig, what);
     }
+}
+
+// ------------------------------------------------------------------ large / corner stream
+
+fn lcg_next(s: u64) -> u64 {
+    s.wrapping_mul(6364136223846793005).wrapping_add(1442695040888963407)
+}
+fn lcg_out(s: u64) -> u64 {
+    s >> 33
+}
+
+/// Fisher–Yates with the LCG (the Lean driver runs the same recipe).
+fn lcg_perm(n: usize, s: &mut u64) -> Vec<i64> {
+    let mut a: Vec<i64> = (0..n as i64).collect();
+    for k in 0..n.saturating_sub(1) {
+        let i = n - 1 - k;
+        *s = lcg_next(*s);
+        let j = (lcg_out(*s) % (i as u64 + 1)) as usize;
+        a.swap(i, j);
+    }
+    a
+}
+
+/// coordinate shapes: 0 random permutation per axis; 1/2 grid numbered row by row with rows of
+/// 4096/8192 nodes (ties); 3/4 the same grid sheared so that every axis is pairwise distinct
+/// (x ascending inside every row = block-aligned sorted runs, y = the index: already sorted);
+/// 5 two concatenated blocks each sorted along x; 6 random with a large offset and tiny
+/// differences (600000 + c/1000: distinct as f64, equal as f32).
+fn gen_axis(n: usize, cshape: usize, axis: usize, s: &mut u64) -> Vec<i64> {
+    let r = if cshape == 1 || cshape == 3 { 4096 } else { 8192 };
+    match cshape {
+        1 | 2 => (0..n).map(|i| (if axis == 0 { i % r } else if axis == 1 { i / r } else { i % 5 }) as i64).collect(),
+        3 | 4 => {
+            if axis == 0 {
+                let rows = n / r + 1;
+                (0..n).map(|i| ((i % r) * rows + i / r) as i64).collect()
+            } else if axis == 1 {
+                (0..n as i64).collect()
+            } else {
+                lcg_perm(n, s)
+            }
+        }
+        5 => {
+            if axis == 0 {
+                let h = n / 2;
+                (0..n).map(|i| (if i < h { 2 * i } else { 2 * (i - h) + 1 }) as i64).collect()
+            } else {
+                lcg_perm(n, s)
+            }
+        }
+        _ => lcg_perm(n, s),
+    }
+}
+
+fn skew_l(n: usize) -> usize {
+    if n >= 8192 && n % 8192 != 0 {
+        (n / 8192) * 8192
+    } else {
+        n.saturating_sub(n / 8 + 1)
+    }
+}
+
+/// weight shapes: 0 ones; 1 small 1..9; 2 heavy (weight n) where the rank along x lies in the
+/// last partial block of 8192, else 1 (every threshold falls into the last partial block);
+/// 3 the same by index; 4 weights in [2^45, 2^46) (only for n ≤ 40: totals stay below 2^53).
+fn gen_weights_l(n: usize, wshape: usize, xs: &[i64], s: &mut u64) -> Vec<u64> {
+    match wshape {
+        1 => (0..n)
+            .map(|_| {
+                *s = lcg_next(*s);
+                1 + lcg_out(*s) % 9
+            })
+            .collect(),
+        2 => {
+            let mut order: Vec<usize> = (0..n).collect();
+            order.sort_by_key(|&i| (xs[i], i));
+            let mut w = vec![1u64; n];
+            for &i in &order[skew_l(n)..] {
+                w[i] = n as u64;
+            }
+            w
+        }
+        3 => (0..n).map(|i| if i >= skew_l(n) { n as u64 } else { 1 }).collect(),
+        4 => (0..n)
+            .map(|_| {
+                *s = lcg_next(*s);
+                (1u64 << 45) + lcg_out(*s) * (1 << 15)
+            })
+            .collect(),
+        _ => vec![1; n],
+    }
+}
+
+fn op_mjl(ctx: &mut Ctx, op: &str, it: &mut std::str::SplitWhitespace) -> Option<()> {
+    let dim: usize = it.next()?.parse().ok()?;
+    let threads: usize = it.next()?.parse().ok()?;
+    let parts: usize = it.next()?.parse().ok()?;
+    let maxiter: usize = it.next()?.parse().ok()?;
+    let n: usize = it.next()?.parse().ok()?;
+    let cshape: usize = it.next()?.parse().ok()?;
+    let wshape: usize = it.next()?.parse().ok()?;
+    let seed: u64 = it.next()?.parse().ok()?;
+    let _cmp: usize = it.next()?.parse().ok()?;
+    if it.next().is_some() || !(dim == 2 || dim == 3) || threads == 0 || threads > 64 || n > 1 << 22 {
+        return None;
+    }
+    if wshape == 4 && n > 40 {
+        return None;
+    }
+    let mut s = lcg_next(seed);
+    let axes: Vec<Vec<i64>> = (0..dim).map(|c| gen_axis(n, cshape, c, &mut s)).collect();
+    let ws = gen_weights_l(n, wshape, &axes[0], &mut s);
+    let mut coords = vec![0i64; n * dim];
+    for c in 0..dim {
+        for i in 0..n {
+            coords[i * dim + c] = axes[c][i];
+        }
+    }
+    let fcoords: Vec<f64> = if cshape == 6 {
+        coords.iter().map(|&c| 600000.0 + c as f64 * 0.001).collect()
+    } else {
+        coords.iter().map(|&c| c as f64).collect()
+    };
+    if cshape == 6 {
+        // the mapping must preserve the order exactly (the model sees the integers)
+        for c in 0..dim {
+            let mut v: Vec<(i64, f64)> = (0..n).map(|i| (coords[i * dim + c], fcoords[i * dim + c])).collect();
+            v.sort_by_key(|x| x.0);
+            if v.windows(2).any(|w| !(w[0].1 < w[1].1)) {
+                ctx.count("large:offset_mapping_not_monotone");
+                return None;
+            }
+        }
+    }
+    let distinct = axes.iter().all(|a| pairwise_distinct(a.clone()));
+    let uniform = ws.windows(2).all(|w| w[0] == w[1]);
+    let positive = ws.iter().all(|&w| w > 0);
+    let in_quant = positive && n >= 1 && (1..=n).contains(&parts) && (1..=4).contains(&maxiter);
+    ctx.count(if in_quant { "mj_in_quantifier" } else { "mj_outside_quantifier" });
+    ctx.count(match n {
+        0..=4096 => "large:n<=4096",
+        4097..=8192 => "large:n_4097-8192",
+        8193..=16384 => "large:n_8193-16384",
+        16385..=32768 => "large:n_16385-32768",
+        32769..=65536 => "large:n_32769-65536",
+        65537..=131072 => "large:n_65537-131072",
+        _ => "large:n>131072",
+    });
+    ctx.count(&format!("large:cshape_{}", cshape));
+    ctx.count(&format!("large:wshape_{}", wshape));
+    ctx.count(&format!("large:threads_{}", threads));
+    finish_mj(ctx, op, dim, threads, parts, maxiter, &ws, &coords, &fcoords, true, distinct, uniform, in_quant, true);
     Some(())
 }
 
@@ -658,6 +937,7 @@ pub fn run_op(ctx: &mut Ctx, op: &str) {
     let mut it = op.split_whitespace();
     let r = match it.next() {
         Some("mj") => op_mj(ctx, op, &mut it),
+        Some("mjl") => op_mjl(ctx, op, &mut it),
         Some("split") => op_split(ctx, op, &mut it),
         Some("scheme") => op_scheme(ctx, op, &mut it),
         Some("splitmany") => op_splitmany(ctx, op, &mut it),
@@ -814,6 +1094,128 @@ fn fmt_split(threads: usize, den: u64, mods: &[u64], ws: &[u64], perm: &[usize])
     .split_whitespace()
     .collect::<Vec<_>>()
     .join(" ")
+}
+
+
+fn fmt_mjl(dim: usize, threads: usize, parts: usize, maxiter: usize, n: usize, cshape: usize, wshape: usize, seed: u64, cmp: usize) -> String {
+    format!("mjl {} {} {} {} {} {} {} {} {}", dim, threads, parts, maxiter, n, cshape, wshape, seed, cmp)
+}
+
+/// LARGE / CORNER stream: sizes just above and far above the usual block thresholds (not
+/// multiples of powers of two), block-aligned / pre-sorted inputs, skewed weights whose
+/// thresholds fall into the last partial block of 8192, part-count corners, tiny sizes,
+/// weights near 2^46, and the history-independence probe (`reuse`) on every case.
+fn large_stream(ctx: &mut Ctx) {
+    const POOLS: [usize; 4] = [1, 2, 3, 16];
+    // (n, parts, maxiter, cshape, wshape, dim, compare with the model)
+    let fixed: [(usize, usize, usize, usize, usize, usize, usize); 8] = [
+        (8193, 7, 2, 0, 1, 2, 1),
+        (8193, 64, 2, 3, 2, 2, 1),
+        (16421, 5, 3, 4, 2, 2, 1),
+        (16421, 257, 1, 5, 3, 3, 1),
+        (20001, 64, 4, 1, 0, 2, 1),
+        (20001, 2, 1, 6, 2, 2, 1),
+        (70001, 257, 2, 4, 2, 2, 0),
+        (70001, 7, 3, 5, 1, 3, 0),
+    ];
+    for (k, &(n, parts, maxiter, cshape, wshape, dim, cmp)) in fixed.iter().enumerate() {
+        let threads = POOLS[(k + ctx.rng.usize(4)) % 4];
+        let seed = ctx.rng.below(1 << 32);
+        run_op(ctx, &fmt_mjl(dim, threads, parts, maxiter, n, cshape, wshape, seed, cmp));
+    }
+    if !ctx.quick() {
+        let sizes = [8193usize, 16421, 20001, 20001, 65548, 70001, 131077, 140003];
+        let mut exact_70k = 0;
+        for _ in 0..64 {
+            let n = *ctx.rng.pick(&sizes);
+            let parts = *ctx.rng.pick(&[2usize, 5, 7, 64, 257]);
+            let maxiter = 1 + ctx.rng.usize(4);
+            let cshape = ctx.rng.usize(7);
+            let wshape = ctx.rng.usize(4);
+            let dim = 2 + ctx.rng.usize(2);
+            let threads = *ctx.rng.pick(&POOLS);
+            let seed = ctx.rng.below(1 << 32);
+            let cmp = if n <= 20001 {
+                1
+            } else if n == 70001 && exact_70k < 3 {
+                exact_70k += 1;
+                1
+            } else {
+                0
+            };
+            run_op(ctx, &fmt_mjl(dim, threads, parts, maxiter, n, cshape, wshape, seed, cmp));
+        }
+    }
+    // part-count corners at a size just above 4096
+    for &parts in &[63usize, 64, 65, 128, 255, 256, 257] {
+        ctx.count(&format!("corner:parts_{}", parts));
+        let maxiter = 1 + ctx.rng.usize(4);
+        let cshape = *ctx.rng.pick(&[0usize, 3, 5]);
+        let wshape = 1 + ctx.rng.usize(2);
+        let threads = *ctx.rng.pick(&POOLS);
+        let seed = ctx.rng.below(1 << 32);
+        let d = 2 + ctx.rng.usize(2);
+        run_op(ctx, &fmt_mjl(d, threads, parts, maxiter, 4097, cshape, wshape, seed, 1));
+        // and with about as many points as parts
+        let n = parts + ctx.rng.usize(400 - parts + 1);
+        let dim = 2;
+        let (coords, _) = gen_coords_distinct(ctx, n, dim);
+        let ws: Vec<u64> = (0..n).map(|_| ctx.rng.range(1, 9) as u64).collect();
+        run_op(ctx, &fmt_mj(dim, threads, parts, maxiter, &ws, &coords));
+    }
+    // thousands of parts
+    let many: &[(usize, usize, usize)] =
+        if ctx.quick() { &[(20001, 3001, 3)] } else { &[(20001, 3001, 3), (20001, 1024, 2), (20001, 4096, 4), (8193, 5000, 3), (70001, 4099, 2)] };
+    for &(n, parts, maxiter) in many {
+        ctx.count("corner:thousands_of_parts");
+        let threads = *ctx.rng.pick(&POOLS);
+        let seed = ctx.rng.below(1 << 32);
+        run_op(ctx, &fmt_mjl(2, threads, parts, maxiter, n, 0, 1, seed, if n <= 20001 { 1 } else { 0 }));
+    }
+    // exactly two and three elements: every part count and max_iter
+    for n in 2..=3usize {
+        for parts in 1..=n {
+            for maxiter in 1..=4 {
+                for dim in 2..=3 {
+                    ctx.count(&format!("corner:n_{}", n));
+                    let (coords, _) = gen_coords_distinct(ctx, n, dim);
+                    let ws: Vec<u64> = (0..n).map(|_| ctx.rng.range(1, 9) as u64).collect();
+                    let threads = *ctx.rng.pick(&POOLS);
+                    run_op(ctx, &fmt_mj(dim, threads, parts, maxiter, &ws, &coords));
+                }
+            }
+        }
+    }
+    // weights near 2^46 (totals below 2^53: every sum is still exact)
+    for _ in 0..ctx.budget(8, 80) {
+        ctx.count("corner:weights_2p46");
+        let n = *ctx.rng.pick(&[2usize, 3, 5, 17, 40]);
+        let parts = 1 + ctx.rng.usize(n);
+        let maxiter = 1 + ctx.rng.usize(4);
+        let threads = *ctx.rng.pick(&POOLS);
+        let seed = ctx.rng.below(1 << 32);
+        let d = 2 + ctx.rng.usize(2);
+        run_op(ctx, &fmt_mjl(d, threads, parts, maxiter, n, 0, 4, seed, 1));
+    }
+    ctx.notes.push(
+        "large/corner stream: MultiJagged on 8193..70001 (thorough ..140003) points generated from a seed on both sides \
+         (random, row-by-row grids with rows of 4096/8192 with and without ties, two sorted blocks, 600000+c/1000 offsets; \
+         skewed weights with every threshold in the last partial block of 8192), pools 1/2/3/16, full oracle on all, \
+         exact comparison with the model up to 20001 points (3 cases at 70001 in thorough)"
+            .into(),
+    );
+}
+
+fn gen_coords_distinct(ctx: &mut Ctx, n: usize, dim: usize) -> (Vec<i64>, &'static str) {
+    let mut c = vec![0i64; n * dim];
+    for a in 0..dim {
+        let mut p: Vec<i64> = (0..n as i64).collect();
+        ctx.rng.shuffle(&mut p);
+        for i in 0..n {
+            c[i * dim + a] = p[i];
+        }
+    }
+    (c, "distinct")
 }
 
 pub fn generate(ctx: &mut Ctx) {
@@ -1054,6 +1456,7 @@ pub fn generate(ctx: &mut Ctx) {
         let threads = *ctx.rng.pick(&THREADS);
         run_op(ctx, &format!("axissort {} {} {} {} {}", dim, coord, threads, n, join(&coords)).trim_end().to_string());
     }
+    large_stream(ctx);
 }
 
 #[cfg(test)]
@@ -1062,13 +1465,9 @@ mod tests {
 
     fn jag(parts: usize, maxiter: usize, dim: usize, ids: &[usize], coords: &[i64]) -> Option<bool> {
         let root = parse_scheme(&coupe::verif::multi_jagged::partition_scheme(parts, maxiter)).unwrap();
-        let mut groups: std::collections::BTreeMap<usize, Vec<usize>> = Default::default();
-        for (p, &i) in ids.iter().enumerate() {
-            groups.entry(i).or_default().push(p);
-        }
-        let partsv: Vec<Part> = groups.into_values().map(|points| Part { points }).collect();
-        let mut j = Jag { dim, coords, steps: 0, budget: 1_000_000, ambiguous: false };
-        j.check(&root, 0, &partsv)
+        let np = ids.iter().max().map_or(0, |m| m + 1);
+        let (mut j, used) = Jag::new(dim, coords, ids, np, 1_000_000);
+        j.check(&root, 0, &used)
     }
 
     /// The oracle is not vacuous: it accepts jagged assignments and rejects others.
